@@ -348,6 +348,11 @@ func checkC11(c C11Case) Verdict {
 	var file po.File
 	for i, m := range pot.Messages {
 		if !entries[i].present {
+			if strHash(entries[i].msgid)%3 == 0 {
+				// left in the catalogue as the extractor wrote it: an entry without a translation
+				// (gettext's "not translated yet") is as good as absent
+				file.Messages = append(file.Messages, m)
+			}
 			continue
 		}
 		m.Str = entries[i].str
